@@ -17,6 +17,10 @@ struct AsyncStackFrame { struct AsyncStackFrame* parentFrame; instruction_ptr in
 struct AsyncStackRoot { struct AsyncStackFrame* topFrame; struct AsyncStackRoot* nextRoot; frame_ptr stackFramePtr; instruction_ptr returnAddress; };
 struct AsyncStackRootHolder { struct AsyncStackRoot* value; };
 struct ScopedAsyncStackRoot { struct AsyncStackRoot root_; };
+/* call sites, second batch: objects that may die (snapshots live in the ghost) */
+struct expected { int state_; int value_; int exception_; };     /* _util::_expected<Value>: tag + which union member is constructed */
+struct rec { struct expected* result_; int continuation_; };      /* _awaitable_base<Promise, Value, With>::type::_rec */
+struct cleanup_promise { struct AsyncStackFrame* parentFrame_; _Bool isUnhandledDone_; int continuation_; int sched_; };  /* _cleanup_promise_base (its frame_ is F1) */
 
 struct vf_ghost {
   unsigned top_stores;                 /* atomic stores to some root's topFrame */
@@ -34,6 +38,12 @@ struct vf_ghost {
   _Bool cs_dead; struct AsyncStackFrame snap_f0; int snap_coro;   /* the frame / promise / awaiter may be gone: dead-object snapshot */
   unsigned completions, starts, rf_ctor, rf_dtor, connects, runs; int last_sig;
   struct AsyncStackFrame* arg_frame; struct AsyncStackFrame* arg_parent; instruction_ptr arg_ip;
+  /* call sites, second batch */
+  struct AsyncStackRoot* cs_prev;      /* the thread's current root when the call-site function was entered */
+  int expect_state, emplaced; _Bool resumed_done, threw;
+  _Bool rec_dead; struct rec snap_rec; struct expected snap_result;
+  unsigned nexts, dummy_ctor, dummy_dtor, next_reads, destroys, transforms, exchanges; int next_handle;
+  _Bool cp_dead; struct cleanup_promise snap_cp; struct AsyncStackFrame snap_f1;
 };
 static struct vf_ghost G;
 static void vf_guar(void* p, void* n);
@@ -268,6 +278,7 @@ __CPROVER_assigns(CUR.value->topFrame, CUR.value->topFrame->stackRoot, callerFra
 __CPROVER_ensures(TOPF == callerFrame && callerFrame->stackRoot == CUR.value) /* the caller is the top frame of the current root again */
 __CPROVER_ensures(__CPROVER_old(CUR.value->topFrame)->stackRoot == NULL)      /* the former top frame (its callee) is detached */
 __CPROVER_ensures(WF && ACTIVE(callerFrame))
+__CPROVER_ensures(G.top_stores == __CPROVER_old(G.top_stores) + 1)
 /*@BODY pop_from_caller*/
 
 /* ---------------- ScopedAsyncStackRoot ---------------- */
@@ -583,6 +594,259 @@ __CPROVER_ensures(CUR.value == __CPROVER_old(CUR.value) && F0.stackRoot == NULL 
 __CPROVER_ensures(G.connects == 1 ==> (G.starts == 1 && G.runs == 1))
 /*@BODY sw_scope*/
 
+
+/* =====================================================================================================================
+ * CALL SITES, second batch: _rec (await_transform.hpp), _rcvr_wrapper::set_next (inject_async_stack.hpp), the plain member
+ * functions of connect_awaitable.hpp and at_coroutine_exit.hpp.  Window roles as above; additionally F1 = the dummy frame
+ * of _rec::set_done resp. the cleanup coroutine's frame_ (its caller, the exiting coroutine's frame, is F0).
+ * ===================================================================================================================== */
+enum { /*@EXPR state_enum*/ };
+static struct expected RESULT;
+static struct rec REC;
+static struct cleanup_promise CP;
+struct sender_task_promise { int receiver_; };                  /* _await::_sender_task<Receiver, With>::type::promise_type (its frame_ is F0) */
+struct st_awaiter { int func_; };                               /* ... ::promise_type::awaiter<Func> */
+struct sender_task { int coro_; };                              /* _await::_sender_task<Receiver, With>::type */
+struct cleanup_awaiter { int continuation_; };                  /* _cleanup_task<...>::awaiter */
+static struct sender_task_promise STP; static struct st_awaiter STA; static struct sender_task ST; static struct cleanup_awaiter CAW;
+#define PROMISE_FRAME F0
+#define CLEANUP_FRAME F1
+#define VF_TASK_FRAME(t) (&F0)
+#define CS2_ZERO (G.emplaced == 0 && !G.rec_dead && !G.threw && G.nexts == 0 && G.dummy_ctor == 0 && G.dummy_dtor == 0 && G.next_reads == 0 && G.destroys == 0 && G.transforms == 0 && G.exchanges == 0 && !G.cp_dead)
+#define CS_ENTRY (G.cs_top0 == G.top_stores && G.cs_prev == CUR.value)
+
+/* ---- await_transform.hpp: _awaitable_base<...>::type::_rec ---- */
+/* the awaitable (result slot, operation state and with it this receiver) lives in the awaiting coroutine's frame: once the
+ * continuation runs all of it may be gone */
+static void vf_rec_dies(void) {
+  struct rec r; struct expected e; REC.continuation_ = r.continuation_; RESULT = e;   /* result_ (a pointer): kept; any later write is caught by the snapshot */
+  G.snap_rec = REC; G.snap_result = RESULT; G.rec_dead = 1;
+}
+#define REC_UNTOUCHED_IF_DEAD (!G.rec_dead || (REC.result_ == G.snap_rec.result_ && REC.continuation_ == G.snap_rec.continuation_ && RESULT.state_ == G.snap_result.state_ && RESULT.value_ == G.snap_result.value_ && RESULT.exception_ == G.snap_result.exception_))
+#define REC_TRACED (WithAsyncStackSupport && G.arg_frame != NULL)
+/* activate_union_member(result_->value_ / exception_, ...): Value's constructor may throw (set_value is conditionally noexcept) */
+static _Bool EV_activate_member(struct rec* self, int which) {
+  VF_P(self == &REC && REC.result_ == &RESULT, "the result is stored in the awaitable's result slot");
+  VF_P(G.resumes == 0 && !G.rec_dead, "the result is stored before the continuation is resumed");
+  VF_P(RESULT.state_ == STATE_empty && G.emplaced == 0, "the result slot is filled once, while it is empty");
+  if (which == STATE_value && VF_nondet_bool()) { G.threw = 1; return 1; }
+  G.emplaced = which;
+  if (which == STATE_value) RESULT.value_ = 1; else RESULT.exception_ = 1;
+  return 0;
+}
+/* continuation_.resume() / continuation_.resume_done(): the awaiting coroutine (or its done handler) runs on this thread
+ * until it suspends again or finishes; it uses the async stack in a balanced way (assumption): by the time it returns it has
+ * deactivated its frame (which may since have been re-activated elsewhere) and may be gone, and with it the awaitable */
+static void EV_resume_continuation(struct rec* self, _Bool done) {
+  VF_CANARY("resume of the awaiting coroutine from _rec reachable");
+  VF_P(self == &REC && G.resumes == 0 && !G.rec_dead, "the continuation is resumed (or its done handler taken) exactly once");
+  VF_P(G.expect_state < 0 || (RESULT.state_ == G.expect_state && G.emplaced == (G.expect_state == STATE_done ? 0 : G.expect_state)), "the result (constructed member and state tag) is in place before the continuation runs");
+  VF_P(G.expect_state < 0 || done == (G.expect_state == STATE_done), "value and error resume the continuation, done takes its done handler");
+  if (REC_TRACED) {
+    VF_P(G.ctor == 1 && G.dtor == 0 && CUR.value == &R1 && R1.nextRoot == G.cs_prev, "the continuation runs on a fresh root that is the thread's current root and shadows the previous one");
+    VF_P(G.top_stores == G.cs_top0 + 1, "exactly one frame activation before the continuation runs");
+    if (!done) {
+      VF_P(ACTIVE_ON(F0, &R1), "the awaiting coroutine's OWN frame is re-activated on the new root before it is resumed");
+      R1.topFrame = NULL; F0.stackRoot = VF_nondet_bool() ? OPQ_R : NULL;
+    } else {
+      VF_P(G.dummy_ctor == 1 && G.dummy_dtor == 0 && ACTIVE_ON(F1, &R1) && F1.parentFrame == &F0 && F0.stackRoot == NULL,
+           "done: a dummy frame whose parent is the awaiting coroutine's frame is the active frame, the coroutine's own frame stays detached (its unhandled_done() pops the dummy frame)");
+      /* unhandled_done() of the waiting coroutine: popAsyncStackFrameFromCaller(frame_); deactivateAsyncStackFrame(frame_);
+       * (connect_awaitable.hpp: unit sender_task_unhandled_done, lemma_done_handoff) */
+      F1.stackRoot = NULL; R1.topFrame = NULL; F0.stackRoot = NULL;
+    }
+    if (VF_nondet_bool()) vf_cs_dies();
+  } else {
+    VF_P(G.ctor == 0 && G.top_stores == G.cs_top0 && CUR.value == G.cs_prev, "without a frame (or without async stack support) no root is created and nothing is activated");
+  }
+  G.resumes++; G.resumed_done = done;
+  vf_rec_dies();
+}
+/* the dummy frame of set_done (a local AsyncStackFrame) is laid out on F1 */
+#define VF_DUMMY_CTOR(p) do { (void)(p); F1.parentFrame = PARENTFRAME_INIT; F1.stackRoot = STACKROOT_INIT; F1.instructionPointer = 0; G.dummy_ctor++; } while (0)
+#define VF_DUMMY_DTOR(p) do { (void)(p); VF_P(F1.stackRoot == NULL && R1.topFrame != &F1 && R0.topFrame != &F1, "the dummy frame is detached when it goes out of scope"); G.dummy_dtor++; } while (0)
+#define REC_REQ (self == &REC && REC.result_ == &RESULT && CS_ZERO && CS2_ZERO && G.ctor == 0 && G.dtor == 0 && WF && CUR.value != &R1 && FRESH_ROOT(R1) \
+    && (G.arg_frame == NULL || (G.arg_frame == &F0 && F0.stackRoot == NULL)) && F1.stackRoot == NULL && CS_ENTRY)
+/* resumed exactly once; traced: inside a balanced root scope with exactly one activation (of the frame the stub checks);
+ * neither the coroutine's frame nor the awaitable is written after the resume */
+#define REC_ENS (G.resumes == 1 && (REC_TRACED ? (G.ctor == 1 && G.dtor == 1 && R1.topFrame == NULL) : (G.ctor == 0 && G.dtor == 0)) \
+    && G.top_stores == G.cs_top0 + (REC_TRACED ? 1 : 0) && CS_UNTOUCHED_IF_DEAD && REC_UNTOUCHED_IF_DEAD)
+#define REC_ASSIGNS AW, F0, F1, SR, CUR.value, G, REC, RESULT
+void rec_complete(struct rec* self)
+__CPROVER_requires(REC_REQ)
+__CPROVER_assigns(REC_ASSIGNS)
+__CPROVER_ensures(REC_ENS && !G.resumed_done && G.dummy_ctor == 0)
+__CPROVER_ensures(CUR.value == __CPROVER_old(CUR.value))       /* the thread's root is restored */
+/*@BODY rec_complete*/
+void rec_set_value(struct rec* self)
+__CPROVER_requires(REC_REQ && RESULT.state_ == STATE_empty && G.expect_state == STATE_value)
+__CPROVER_assigns(REC_ASSIGNS)
+__CPROVER_ensures(!G.threw ==> (REC_ENS && !G.resumed_done))
+__CPROVER_ensures(G.threw ==> (G.resumes == 0 && RESULT.state_ == STATE_empty && G.ctor == 0 && G.top_stores == G.cs_top0)) /* Value's constructor threw: nothing delivered, the caller reports the error */
+__CPROVER_ensures(CUR.value == __CPROVER_old(CUR.value))
+/*@BODY rec_set_value*/
+void rec_set_error(struct rec* self)
+__CPROVER_requires(REC_REQ && RESULT.state_ == STATE_empty && G.expect_state == STATE_exception)
+__CPROVER_assigns(REC_ASSIGNS)
+__CPROVER_ensures(REC_ENS && !G.resumed_done && !G.threw)
+__CPROVER_ensures(CUR.value == __CPROVER_old(CUR.value))
+/*@BODY rec_set_error*/
+void rec_set_error_code(struct rec* self)
+__CPROVER_requires(REC_REQ && RESULT.state_ == STATE_empty && G.expect_state == STATE_exception)
+__CPROVER_assigns(REC_ASSIGNS)
+__CPROVER_ensures(REC_ENS && !G.resumed_done && !G.threw)
+__CPROVER_ensures(CUR.value == __CPROVER_old(CUR.value))
+/*@BODY rec_set_error_code*/
+void rec_set_done(struct rec* self)
+__CPROVER_requires(REC_REQ && RESULT.state_ == STATE_empty && G.expect_state == STATE_done)
+__CPROVER_assigns(REC_ASSIGNS)
+__CPROVER_ensures(REC_ENS && G.resumed_done)
+__CPROVER_ensures(REC_TRACED ? (G.dummy_ctor == 1 && G.dummy_dtor == 1 && F1.stackRoot == NULL) : (G.dummy_ctor == 0 && G.dummy_dtor == 0)) /* the dummy frame is gone, detached */
+__CPROVER_ensures(CUR.value == __CPROVER_old(CUR.value))
+/*@BODY rec_set_done*/
+
+/* ---- inject_async_stack.hpp: _rcvr_wrapper::set_next (conditionally noexcept) ---- */
+/* unifex::set_next(receiver(), ...): not a completion (the operation stays alive); balanced on the current root (assumption);
+ * MAY THROW: the exception leaves set_next through the _root_and_frame object */
+static _Bool EV_wrapped_set_next(struct rcvr_wrapper* self) {
+  VF_CANARY("wrapped set_next reachable");
+  VF_P(self == &RW && G.nexts == 0 && G.completions == 0, "the wrapped receiver's set_next is called once per call");
+  VF_P(G.rf_ctor == 1 && G.rf_dtor == 0 && ACTIVE_ON(F1, &R1), "set_next is delivered with the copy frame active on a fresh root");
+  VF_P(G.arg_frame == NULL || (F1.parentFrame == G.arg_parent && F1.instructionPointer == G.arg_ip), "the copy frame carries the receiver frame's parent link and return address");
+  VF_P(G.arg_frame != NULL || (F1.parentFrame == NULL), "without a receiver frame the copy frame is a chain end");
+  G.nexts++;
+  G.threw = VF_nondet_bool();
+  return G.threw;
+}
+void rcvr_wrapper_set_next(struct rcvr_wrapper* self)
+__CPROVER_requires(RCVW_REQ && CS2_ZERO)
+__CPROVER_assigns(F1, SR, CUR.value, G, vf_rf_arg)
+__CPROVER_ensures(G.nexts == 1 && G.completions == 0)
+__CPROVER_ensures(G.rf_ctor == 1 && G.rf_dtor == 1 && G.top_stores == G.cs_top0 + 2 && F1.stackRoot == NULL && R1.topFrame == NULL) /* balanced on BOTH paths: normal return and unwinding (G.threw) */
+__CPROVER_ensures(CUR.value == __CPROVER_old(CUR.value) && R0.topFrame == __CPROVER_old(R0.topFrame))                              /* stack roots restored on both paths */
+/*@BODY rcvw_set_next*/
+
+/* ---- connect_awaitable.hpp: _sender_task<Receiver, With>::type and its promise_type (frame_ = F0) ---- */
+void sender_task_promise_ctor(struct sender_task_promise* self, instruction_ptr returnAddress)
+__CPROVER_requires(self == &STP && F0.parentFrame == PARENTFRAME_INIT && F0.stackRoot == STACKROOT_INIT)
+__CPROVER_assigns(F0.instructionPointer)
+__CPROVER_ensures(WithAsyncStackSupport ==> F0.instructionPointer == returnAddress)
+__CPROVER_ensures(F0.parentFrame == NULL && F0.stackRoot == NULL)   /* the frame of a new promise is detached (frame condition) */
+/*@BODY stp_ctor*/
+/* std::forward<Func>(func_)(): the lambda handed to co_yield completes the receiver, which may destroy the coroutine */
+static void EV_yield_func(struct st_awaiter* self) {
+  VF_CANARY("completion function of the sender_task reachable");
+  VF_P(self == &STA && G.completions == 0, "the completion function runs once");
+  VF_P(IMP_(WithAsyncStackSupport, F0.stackRoot == NULL && G.cs_root != NULL && TOP_OF(G.cs_root) == NULL), "the coroutine's frame is deactivated before the receiver is completed (it may destroy the coroutine)");
+  G.completions++;
+  vf_cs_dies();
+}
+void sender_task_awaiter_await_suspend(struct st_awaiter* self, int h)
+__CPROVER_requires(self == &STA && CS_ZERO && CS2_ZERO && WF && IMP_(WithAsyncStackSupport, ACTIVE(&F0) && G.cs_root == F0.stackRoot))
+__CPROVER_assigns(AW, F0, R0.topFrame, R1.topFrame, G)
+__CPROVER_ensures(G.completions == 1 && CS_UNTOUCHED_IF_DEAD && CUR.value == __CPROVER_old(CUR.value))
+__CPROVER_ensures(G.top_stores == __CPROVER_old(G.top_stores) + (WithAsyncStackSupport ? 1 : 0))
+/*@BODY stp_await_suspend*/
+/* the lambda behind doneCoro_ (run by unhandled_done()): entered from _rec::set_done with the dummy frame F1 active */
+static void EV_promise_set_done(struct sender_task_promise* self) {
+  VF_CANARY("set_done of the sender_task's receiver reachable");
+  VF_P(self == &STP && G.completions == 0, "set_done is delivered once");
+  VF_P(IMP_(WithAsyncStackSupport, F0.stackRoot == NULL && F1.stackRoot == NULL && G.cs_root != NULL && TOP_OF(G.cs_root) == NULL),
+       "the dummy frame is popped and the coroutine's own frame deactivated before the receiver is completed with done (it may destroy the coroutine)");
+  G.completions++; G.last_sig = SIG_done;
+  vf_cs_dies();
+}
+#define STP_DONE_REQ (WF && CUR.value != NULL && IS_ROOT(CUR.value) && G.cs_root == CUR.value && TOPF == &F1 && F1.stackRoot == CUR.value && F1.parentFrame == &F0 && F0.stackRoot == NULL)
+void sender_task_promise_unhandled_done(struct sender_task_promise* self)
+__CPROVER_requires(self == &STP && CS_ZERO && CS2_ZERO && IMP_(WithAsyncStackSupport, STP_DONE_REQ))
+__CPROVER_assigns(AW, F0, F1.stackRoot, R0.topFrame, R1.topFrame, G)
+__CPROVER_ensures(G.completions == 1 && G.last_sig == SIG_done && CS_UNTOUCHED_IF_DEAD && CUR.value == __CPROVER_old(CUR.value))
+__CPROVER_ensures(WithAsyncStackSupport ==> (F0.stackRoot == NULL && F1.stackRoot == NULL && TOP_OF(G.cs_root) == NULL)) /* both frames detached, the root without top frame: what _rec::set_done's root scope needs to end */
+__CPROVER_ensures(G.top_stores == __CPROVER_old(G.top_stores) + (WithAsyncStackSupport ? 2 : 0))
+/*@BODY stp_done*/
+/* start(): the first resume of the coroutine, on a new root */
+static struct AsyncStackFrame* EV_task_parent_frame(struct sender_task* self) { G.arg_parent = VF_nondet_bool() ? OPQ_F : NULL; return G.arg_parent; }
+/* coro_.resume(): the coroutine runs until it suspends (every await / yield path deactivates its frame first: units
+ * sender_awaitable_await_suspend, await_suspend_impl_*, sender_task_awaiter_await_suspend) or until its receiver has destroyed it */
+static void EV_task_resume(struct sender_task* self) {
+  VF_CANARY("first resume of the sender_task reachable");
+  VF_P(self == &ST && G.resumes == 0, "start() resumes the coroutine exactly once");
+  if (WithAsyncStackSupport) {
+    VF_P(G.ctor == 1 && G.dtor == 0 && ACTIVE_ON(F0, &R1) && R1.nextRoot == G.cs_prev, "the coroutine is resumed with its promise's frame active on a fresh root");
+    VF_P(F0.parentFrame == G.arg_parent, "the frame is linked to the receiver's frame (or is a chain end) before it is activated");
+    _Bool deactivated = VF_nondet_bool();
+    if (deactivated) { R1.topFrame = NULL; F0.stackRoot = NULL; }
+    if (!deactivated || VF_nondet_bool()) vf_cs_dies();      /* gone, possibly still recorded as top frame */
+  } else {
+    VF_P(G.ctor == 0 && G.top_stores == G.cs_top0, "no root without async stack support");
+  }
+  G.resumes++;
+}
+void sender_task_start(struct sender_task* self)
+__CPROVER_requires(self == &ST && CS_ZERO && CS2_ZERO && G.ctor == 0 && G.dtor == 0 && WF && CUR.value != &R1 && FRESH_ROOT(R1) && F0.stackRoot == NULL && F0.parentFrame == PARENTFRAME_INIT && CS_ENTRY)
+__CPROVER_assigns(AW, F0, SR, CUR.value, G)
+__CPROVER_ensures(G.resumes == 1 && CUR.value == __CPROVER_old(CUR.value))                                       /* the thread's root is restored */
+__CPROVER_ensures(WithAsyncStackSupport ? (G.ctor == 1 && G.dtor == 1 && R1.topFrame == NULL) : (G.ctor == 0 && G.dtor == 0))
+__CPROVER_ensures(CS_UNTOUCHED_IF_DEAD && (!G.cs_dead ==> F0.stackRoot == NULL))                                   /* a dead frame is not written, a live one is detached */
+/*@BODY st_start*/
+
+/* ---- at_coroutine_exit.hpp: the cleanup coroutine's promise (frame_ = F1, parentFrame_ -> F0) ---- */
+static void vf_cp_dies(void) {
+  struct cleanup_promise c; CP.isUnhandledDone_ = c.isUnhandledDone_; CP.continuation_ = c.continuation_; CP.sched_ = c.sched_;
+  struct AsyncStackFrame f; F1.parentFrame = f.parentFrame; F1.instructionPointer = f.instructionPointer;
+  G.snap_cp = CP; G.snap_f1 = F1; G.cp_dead = 1;
+}
+#define CP_UNTOUCHED_IF_DEAD (!G.cp_dead || (FRAME_EQ(F1, G.snap_f1) && CP.parentFrame_ == G.snap_cp.parentFrame_ && CP.isUnhandledDone_ == G.snap_cp.isUnhandledDone_ && CP.continuation_ == G.snap_cp.continuation_ && CP.sched_ == G.snap_cp.sched_))
+#define CP_TRACED (WithAsyncStackSupport && CP.parentFrame_ != NULL)
+static int EV_cleanup_next(int h) {
+  VF_P(!G.cp_dead && G.next_reads == 0, "the continuation is read once, before the promise is destroyed");
+  G.next_reads++; G.next_handle = 1 + (int)(VF_nondet_u8() & 0x7f);
+  return G.next_handle;
+}
+static void EV_cleanup_destroy(int h) {
+  VF_CANARY("destroy of the finished cleanup coroutine reachable");
+  VF_P(G.destroys == 0 && G.next_reads == 1, "the cleanup coroutine is destroyed once, after its continuation was fetched");
+  VF_P(IMP_(CP_TRACED, F1.stackRoot == NULL && G.cs_root != NULL && ACTIVE_ON(F0, G.cs_root)), "the cleanup frame lives in the promise: it is popped (detached, its caller the active top frame again) before the promise is destroyed");
+  VF_P(IMP_(!CP_TRACED, G.top_stores == G.cs_top0), "nothing is popped when nothing was pushed");
+  G.destroys++;
+  vf_cp_dies();
+}
+int cleanup_final_await_suspend_impl(int h)
+__CPROVER_requires(CS_ZERO && CS2_ZERO && WF && (CP.parentFrame_ == NULL || CP.parentFrame_ == &F0) && CS_ENTRY)
+__CPROVER_requires(IMP_(CP_TRACED, ACTIVE(&F1) && G.cs_root == F1.stackRoot && F1.parentFrame == &F0 && F0.stackRoot == NULL))
+__CPROVER_assigns(CP, F0.stackRoot, F1, R0.topFrame, R1.topFrame, G)
+__CPROVER_ensures(G.destroys == 1 && G.next_reads == 1 && __CPROVER_return_value == G.next_handle) /* the continuation fetched BEFORE the destroy is what is handed on */
+__CPROVER_ensures(G.cp_dead && CP_UNTOUCHED_IF_DEAD)                                                /* nothing of the destroyed coroutine is written */
+__CPROVER_ensures(G.top_stores == G.cs_top0 + ((WithAsyncStackSupport && __CPROVER_old(CP.parentFrame_) != NULL) ? 1 : 0))
+__CPROVER_ensures((WithAsyncStackSupport && __CPROVER_old(CP.parentFrame_) != NULL) ==> (F1.stackRoot == NULL && ACTIVE_ON(F0, G.cs_root) && WF))
+__CPROVER_ensures(CUR.value == __CPROVER_old(CUR.value))
+/*@BODY cp_final_suspend*/
+static int EV_cleanup_await_transform(struct cleanup_promise* self) {
+  VF_CANARY("await_transform of the cleanup action's awaitable reachable");
+  VF_P(self == &CP && G.transforms == 0, "the awaitable is transformed once");
+  VF_P(IMP_(CP_TRACED, G.cs_root != NULL && ACTIVE_ON(F1, G.cs_root) && F1.parentFrame == &F0 && F0.stackRoot == NULL), "the cleanup frame is pushed as callee of the exiting coroutine's frame before the awaitable is built");
+  VF_P(IMP_(!CP_TRACED, G.top_stores == G.cs_top0), "nothing is pushed without a parent frame");
+  G.transforms++;
+  return (int)VF_nondet_u8();
+}
+int cleanup_promise_await_transform(struct cleanup_promise* self)
+__CPROVER_requires(self == &CP && CS_ZERO && CS2_ZERO && WF && (CP.parentFrame_ == NULL || CP.parentFrame_ == &F0) && CS_ENTRY)
+__CPROVER_requires(IMP_(CP_TRACED, PUSH_REQ(&F0, &F1) && G.cs_root == F0.stackRoot))
+__CPROVER_assigns(F0.stackRoot, F1.stackRoot, F1.parentFrame, R0.topFrame, R1.topFrame, G)
+__CPROVER_ensures(G.transforms == 1 && G.top_stores == G.cs_top0 + (CP_TRACED ? 1 : 0))
+__CPROVER_ensures(CP_TRACED ==> (ACTIVE_ON(F1, G.cs_root) && F1.parentFrame == &F0 && F0.stackRoot == NULL && WF))
+__CPROVER_ensures(CUR.value == __CPROVER_old(CUR.value))
+/*@BODY cp_await_transform*/
+static int EV_exchange_continuation(struct cleanup_awaiter* self) { VF_P(self == &CAW && G.exchanges == 0, "the parent's continuation is exchanged once"); G.exchanges++; return (int)VF_nondet_u8(); }
+static int EV_get_scheduler(struct cleanup_awaiter* self) { return (int)VF_nondet_u8(); }
+_Bool cleanup_awaiter_await_suspend_impl_(struct cleanup_awaiter* self, int parent, instruction_ptr returnAddress)
+__CPROVER_requires(self == &CAW && CS_ZERO && CS2_ZERO)
+__CPROVER_assigns(CP, F1.instructionPointer, G)
+__CPROVER_ensures(__CPROVER_return_value == 0)                 /* never suspends: the cleanup coroutine runs when the parent exits */
+__CPROVER_ensures(WithAsyncStackSupport ==> (CP.parentFrame_ == G.arg_frame && F1.instructionPointer == returnAddress)) /* the frame that push / pop will use as caller is the parent's own */
+__CPROVER_ensures(G.exchanges == 1 && G.top_stores == __CPROVER_old(G.top_stores)) /* no link is touched (frame condition) */
+/*@BODY cp_awaiter_suspend*/
+
 /* ---------------- harnesses ---------------- */
 static struct AsyncStackFrame* any_frame(void) { int k = VF_nondet_int(); return k == 0 ? NULL : k == 1 ? &F0 : k == 2 ? &F1 : OPQ_F; }
 static struct AsyncStackRoot* any_root(void) { int k = VF_nondet_int(); return k == 0 ? NULL : k == 1 ? &R0 : k == 2 ? &R1 : OPQ_R; }
@@ -599,6 +863,8 @@ static void window_any(void) {
   G.local_root = NULL; G.local_prev = NULL; G.ctor = 0; G.dtor = 0; G.resumes = 0;
   G.cs_root = NULL; G.resumer_id = 0; G.resumers_made = 0; G.resumer_destroys = 0; G.suspend_calls = 0; G.suspended = 0; G.cs_dead = 0; G.snap_coro = 0;
   G.completions = 0; G.starts = 0; G.rf_ctor = 0; G.rf_dtor = 0; G.connects = 0; G.runs = 0; G.last_sig = -1; G.arg_frame = NULL; G.arg_parent = NULL; G.arg_ip = 0;
+  G.cs_prev = NULL; G.expect_state = -1; G.emplaced = 0; G.resumed_done = 0; G.threw = 0; G.rec_dead = 0; G.nexts = 0; G.dummy_ctor = 0; G.dummy_dtor = 0;
+  G.next_reads = 0; G.destroys = 0; G.transforms = 0; G.exchanges = 0; G.next_handle = 0; G.cp_dead = 0;
 }
 static void fresh_scoped(void) { R1.topFrame = TOPFRAME_INIT; R1.nextRoot = NEXTROOT_INIT; R1.stackFramePtr = VF_nondet_uptr(); R1.returnAddress = VF_nondet_uptr(); }
 
@@ -809,4 +1075,49 @@ void lemma_op_wrapper_noexcept(void) {
   VF_P(/*@EXPR nx_has_nothrow_constructible*/ == 1, "lemma (textual): ... and is_nothrow_constructible_v<remove_cvref_t<R>, R> for the stored receiver");
   VF_P(/*@EXPR nx_is_conjunction*/ == 1, "lemma (textual): the noexcept-specification is exactly the conjunction of the two (nothing weaker such as is_invocable_v, no disjunction)");
   VF_CANARY("lemma_op_wrapper_noexcept reachable");
+}
+
+/* ---------------- call-site harnesses, second batch ---------------- */
+static void cs2_init(void) {
+  cs_init(); G.cs_prev = CUR.value;
+  REC.result_ = &RESULT; REC.continuation_ = VF_nondet_int(); RESULT.state_ = STATE_empty; RESULT.value_ = 0; RESULT.exception_ = 0;
+  CP.parentFrame_ = NULL; CP.isUnhandledDone_ = VF_nondet_bool(); CP.continuation_ = VF_nondet_int(); CP.sched_ = VF_nondet_int();
+}
+static void rec_canaries(void) {
+  if (REC_TRACED) { VF_CANARY("continuation resumed on a new root"); } else { VF_CANARY("continuation resumed without a frame / without async stack support"); }
+  if (G.cs_dead) { VF_CANARY("the awaiting coroutine can be gone"); }
+}
+void h_rec_complete(void) { cs2_init(); fresh_scoped(); G.arg_frame = VF_nondet_bool() ? &F0 : NULL; RESULT.state_ = VF_nondet_int(); rec_complete(&REC); VF_CANARY("after _rec::complete"); rec_canaries(); }
+void h_rec_set_value(void) { cs2_init(); fresh_scoped(); G.arg_frame = VF_nondet_bool() ? &F0 : NULL; G.expect_state = STATE_value; rec_set_value(&REC); VF_CANARY("after _rec::set_value");
+  if (G.threw) { VF_CANARY("Value's constructor threw"); } else { rec_canaries(); } }
+void h_rec_set_error(void) { cs2_init(); fresh_scoped(); G.arg_frame = VF_nondet_bool() ? &F0 : NULL; G.expect_state = STATE_exception; rec_set_error(&REC); VF_CANARY("after _rec::set_error(exception_ptr)"); rec_canaries(); }
+void h_rec_set_error_code(void) { cs2_init(); fresh_scoped(); G.arg_frame = VF_nondet_bool() ? &F0 : NULL; G.expect_state = STATE_exception; rec_set_error_code(&REC); VF_CANARY("after _rec::set_error(error_code)"); rec_canaries(); }
+void h_rec_set_done(void) { cs2_init(); fresh_scoped(); G.arg_frame = VF_nondet_bool() ? &F0 : NULL; G.expect_state = STATE_done; rec_set_done(&REC); VF_CANARY("after _rec::set_done"); rec_canaries(); }
+void h_rcvw_set_next(void) { cs2_init(); fresh_scoped(); rcvr_wrapper_set_next(&RW); VF_CANARY("after _rcvr_wrapper::set_next");
+  if (G.threw) { VF_CANARY("wrapped set_next threw: unwinding path"); } else { VF_CANARY("wrapped set_next returned"); } if (G.arg_frame) { VF_CANARY("set_next: receiver with a frame"); } }
+void h_stp_ctor(void) { cs2_init(); F0.parentFrame = PARENTFRAME_INIT; F0.stackRoot = STACKROOT_INIT; sender_task_promise_ctor(&STP, VF_nondet_uptr()); VF_CANARY("after sender_task promise_type()"); }
+void h_stp_await_suspend(void) { cs2_init(); G.cs_root = F0.stackRoot; sender_task_awaiter_await_suspend(&STA, 0); VF_CANARY("after sender_task awaiter::await_suspend");
+  if (WithAsyncStackSupport) { VF_CANARY("yield: frame deactivated first"); } else { VF_CANARY("yield without async stack support"); } }
+void h_stp_done(void) { cs2_init(); G.cs_root = CUR.value; sender_task_promise_unhandled_done(&STP); VF_CANARY("after the sender_task's unhandled_done handler");
+  if (WithAsyncStackSupport) { VF_CANARY("done: dummy frame popped, own frame deactivated"); if (G.cs_root == &R0) { VF_CANARY("done handler on an enclosing root"); } } else { VF_CANARY("done without async stack support"); } }
+void h_st_start(void) { cs2_init(); fresh_scoped(); sender_task_start(&ST); VF_CANARY("after sender_task::start");
+  if (G.cs_dead) { VF_CANARY("sender_task completed inline and may be gone"); } else { VF_CANARY("sender_task suspended"); } if (G.arg_parent) { VF_CANARY("receiver with a frame: linked as parent"); } }
+void h_cp_final_suspend(void) { cs2_init(); CP.parentFrame_ = VF_nondet_bool() ? &F0 : NULL; G.cs_root = F1.stackRoot; int r = cleanup_final_await_suspend_impl(0); VF_CANARY("after final_awaitable::await_suspend_impl");
+  if (G.top_stores != G.cs_top0) { VF_CANARY("cleanup frame popped"); } else { VF_CANARY("no parent frame / no async stack support: nothing popped"); } }
+void h_cp_await_transform(void) { cs2_init(); CP.parentFrame_ = VF_nondet_bool() ? &F0 : NULL; G.cs_root = F0.stackRoot; cleanup_promise_await_transform(&CP); VF_CANARY("after _cleanup_promise::await_transform");
+  if (G.top_stores != G.cs_top0) { VF_CANARY("cleanup frame pushed"); } else { VF_CANARY("no parent frame / no async stack support: nothing pushed"); } }
+void h_cp_awaiter_suspend(void) { cs2_init(); int k = VF_nondet_int(); G.arg_frame = k == 0 ? NULL : k == 1 ? &F0 : OPQ_F; _Bool r = cleanup_awaiter_await_suspend_impl_(&CAW, 0, VF_nondet_uptr()); VF_CANARY("after _cleanup_task::awaiter::await_suspend_impl_");
+  if (CP.parentFrame_ != NULL) { VF_CANARY("parent frame recorded"); } }
+/* lemma over the CONTRACT of the sender_task's done handler: the state in which _rec::set_done hands over (what
+ * EV_resume_continuation(done) asserts) satisfies the handler's precondition, and the handler's postcondition is what the
+ * stub assumes when it returns (dummy frame popped, own frame deactivated, root without top frame) */
+void lemma_done_handoff(void) {
+  cs2_init(); fresh_scoped(); WithAsyncStackSupport = 1;
+  __CPROVER_assume(WF && CS_ZERO && CS2_ZERO);
+  /* the facts asserted by EV_resume_continuation(done) */
+  __CPROVER_assume(CUR.value == &R1 && ACTIVE_ON(F1, &R1) && F1.parentFrame == &F0 && F0.stackRoot == NULL);
+  G.cs_root = CUR.value;
+  sender_task_promise_unhandled_done(&STP);
+  VF_P(F1.stackRoot == NULL && R1.topFrame == NULL && F0.stackRoot == NULL, "lemma: the done handler leaves exactly the state the _rec::set_done stub assumes (the root scope can end, the dummy frame can go)");
+  VF_CANARY("lemma_done_handoff reachable");
 }
